@@ -137,6 +137,9 @@ func execC18e2e(sc c18Scenario) *vstat.Outcome {
 			st := &slowDeleteStore{rtStore: rtStore{data: map[string]rtRec{}}, delay: 15 * time.Millisecond}
 			if sc.SlowSet {
 				st.delay, st.setDelay = 0, 40*time.Millisecond
+				if n%2 == 0 {
+					st.setDelay = 160 * time.Millisecond
+				}
 			}
 			store.VerifRegisterStore(storeURL[i], st)
 			defer store.VerifUnregisterStore(storeURL[i])
@@ -295,7 +298,7 @@ func execC18e2e(sc c18Scenario) *vstat.Outcome {
 			applyPurge(op.Key, op.Cache, op.Wrong)
 			if sc.SlowSet {
 				// whatever write was still on its way to the store when the purge completed has landed by now
-				time.Sleep(60 * time.Millisecond)
+				time.Sleep(220 * time.Millisecond)
 			}
 		case "purge-under-traffic":
 			// a stored entry is purged while clients keep asking for it; once the purge has
